@@ -19,7 +19,6 @@ structure InvX (orph : List Nat) (h : Hub) : Prop where
     ∃ rm, h.rooms x.backend r = some rm ∧ s ∈ rm.members
   nonempty : ∀ b r rm, h.rooms b r = some rm → rm.members ≠ []
   nodup : ∀ b r rm, h.rooms b r = some rm → rm.members.Nodup
-  incall : ∀ b r rm s, h.rooms b r = some rm → s ∈ rm.inCall → s ∈ rm.members
   -- bus listeners are exactly the sessions that should listen (C05, C07)
   roomL_iff : ∀ b r s, s ∈ h.roomL b r ↔
     ∃ x, h.sess s = some x ∧ x.backend = b ∧ x.room = some r ∧ x.kind ≠ .virtual
@@ -42,6 +41,7 @@ structure InvX (orph : List Nat) (h : Hub) : Prop where
   -- connections
   conn_iff : ∀ c s, h.connSess c = some s ↔ ∃ x, h.sess s = some x ∧ x.conn = some c
   conn_open : ∀ c s, h.connSess c = some s → h.connOpen c = true
+  eh : ∀ c, c ∈ h.expectHello → h.connSess c = none
   -- waiting lists and per-backend counts hold live sessions only (C07)
   expired : ∀ s, s ∈ h.expired → (h.sess s).isSome = true
   anon : ∀ s, s ∈ h.anon → (h.sess s).isSome = true
@@ -80,7 +80,6 @@ theorem InvX.congr {orph : List Nat} {h h' : Hub} (e : CoreEq h h') (hi : InvX o
     · have := hi.room_mem s y r hy; grind
   · intro b r rm h1; have := hi.nonempty b r rm; grind
   · intro b r rm h1; have := hi.nodup b r rm; grind
-  · intro b r rm s h1 h2; have := hi.incall b r rm s; grind
   · intro b r s; have := hi.roomL_iff b r s; have := es s; grind
   · intro b r; have := hi.roomL_nodup b r; grind
   · intro b u s; have := hi.userL_iff b u s; have := es s; grind
@@ -105,6 +104,7 @@ theorem InvX.congr {orph : List Nat} {h h' : Hub} (e : CoreEq h h') (hi : InvX o
   · intro p k v h1; have := hi.vtable p k v; have := es v; grind
   · intro c s; have := hi.conn_iff c s; have := es s; grind
   · intro c s h1; have := hi.conn_open c s; grind
+  · intro c h1; have := hi.eh c; grind
   · intro s h1; have := hi.expired s; have := es s; grind
   · intro s h1; have := hi.anon s; have := es s; grind
   · intro s h1; have := hi.dialout s; have := es s; grind
